@@ -47,6 +47,7 @@ CAPSETS = {
     "plain": dict(starttls=False, pre=b"PLAIN LOGIN", post=b"PLAIN LOGIN"),
     "tls-same": dict(starttls=True, pre=b"PLAIN LOGIN", post=b"PLAIN LOGIN"),
     "tls-differs": dict(starttls=True, pre=b"LOGIN", post=b"PLAIN"),
+    "tls-differs-debug": dict(starttls=True, pre=b"PLAIN", post=b"LOGIN", debug=True),  # the same with a client created with debug=True
     "tls-only-after": dict(starttls=True, pre=b"", post=b"PLAIN"),
     "tls-none-after": dict(starttls=True, pre=b"PLAIN", post=b"X-OTHER"),
     # announced names that merely contain an implemented mechanism's name: nothing qualifies, no credentials may be sent
@@ -117,7 +118,7 @@ def monitor(s, servers, starttls_requested, history, outcomes):
 def run_history(capset, starttls, faults1, wrap_fails, pre, post, second, faults2, post2, auth_ok=True, wfault=None):
     srv1 = make_server(capset, faults1, auth_ok)
     s = wire.Session(srv1)
-    s.new_client()
+    s.new_client(debug=bool(CAPSETS[capset].get("debug")))
     if wrap_fails:
         s.env["wrap_fails"] = True
     outcomes = []
